@@ -10,6 +10,7 @@
   duplicate blocks) unless a hypothesis says otherwise; `ans` = observable answer (`none` = raised).
 -/
 import BioCantor.Proofs.SeqUnion
+set_option autoImplicit false   -- an unresolved name in a statement must be an error, never a bound variable
 namespace BioCantor.Props.C03
 open BioCantor BioCantor.Spec BioCantor.Model BioCantor.Spec.Sq BioCantor.Model.Sq BioCantor.Proofs
   BioCantor.Proofs.Sq
